@@ -214,8 +214,35 @@ def impl_ipv6(ver, v, d, prefix):
 
 def impl_cmp(ver1, v1, d1, ver2, v2, d2):
     a, b = _mk(ver1, v1, d1), _mk(ver2, v2, d2)
-    return [a == b, a != b, a < b, a <= b, a > b, a >= b, hash(a) == hash((a.version, int(a))),
-            (not (a == b)) or hash(a) == hash(b)]
+    res = [a == b, a != b, a < b, a <= b, a > b, a >= b, hash(a) == hash((a.version, int(a))),
+           (not (a == b)) or hash(a) == hash(b)]
+    # the right operand given as its text (which parses back to the same version and value) or, when the bare integer
+    # denotes the same identifier, as an int must compare exactly like the object; a foreign object is unequal
+    import netaddr
+    forms = []
+    try:      # custom dialects may print text that is not an accepted spelling; the built-in ones are covered by eui_roundtrip
+        t = netaddr.EUI(str(b))
+        if (t.version, int(t)) == (b.version, int(b)):
+            forms.append(str(b))
+    except netaddr.AddrFormatError:
+        pass
+    if ver2 == 48 or v2 >= 2 ** 48:
+        forms.append(v2)
+    def _try(op):
+        try:
+            return op()
+        except TypeError:
+            return "unordered"
+    for f in forms:
+        got = [a == f, a != f, _try(lambda: a < f), _try(lambda: a <= f), _try(lambda: a > f), _try(lambda: a >= f)]
+        # either the form is compared as the identifier it denotes, or it is not comparable at all - never something else
+        assert got == res[:6] or got == [False, True] + ["unordered"] * 4, \
+            "comparison with %r differs from comparison with the EUI: %r vs %r" % (f, got, res[:6])
+    class _Foreign(object):
+        pass
+    o = _Foreign()
+    assert (a == o) is False and (a != o) is True, "EUI equals a foreign object (whose hash is its own)"
+    return res
 
 
 def impl_split_iab_mac(i, strict):
